@@ -1,11 +1,13 @@
-(* C05 (7): nesting depth of the object scanner (scanner.go: ReadObject,
-   ReadArray, ReadDict and their nestDepth counter).  The input is an
-   ARBITRARY sequence of tokens; the recursion of the Go code is made explicit
-   as a stack of open containers, whose height is the value of s.nestDepth
-   (and half the depth of the Go call chain ReadObject -> ReadArray ->
-   ReadObject ...).  Scalars are abstract (their syntax is property C01's);
-   integers followed by R are not distinguished from other scalars.
-   Definitions only. *)
+(* C05 (7): nesting depth and the reference look-back of the object scanner
+   (scanner.go: ReadObject, ReadArray, ReadDict, their nestDepth counter and
+   ReadArray's integersSeen counter).  The input is an ARBITRARY sequence of
+   tokens; the recursion of the Go code is made explicit as a stack of open
+   containers, whose height is the value of s.nestDepth (and half the depth of
+   the Go call chain ReadObject -> ReadArray -> ReadObject ...).  An array
+   frame carries what ReadArray's two type assertions `array[k-2].(Integer)`,
+   `array[k-1].(Integer)` look at: for every element whether it is an Integer
+   (newest first), and integersSeen.  Scalars other than integers are abstract
+   (their syntax is property C01's).  Definitions only. *)
 From Coq Require Import List ZArith Bool Arith Lia.
 From GoPdf.Base Require Import Res.
 From GoPdf.Gen Require Import Gen_C05.
@@ -14,58 +16,96 @@ Close Scope Z_scope.
 Open Scope nat_scope.
 
 Inductive tok :=
-| TA          (* a scalar that is not a name: string, number, true, null ... *)
+| TA          (* a scalar that is neither a name nor an integer *)
+| TI          (* an integer *)
+| TR          (* the keyword R *)
 | TN          (* a name *)
 | TAO | TAC   (* [ ] *)
 | TDO | TDC.  (* << >> *)
 
 Inductive frame :=
-| FArr        (* inside ReadArray's loop *)
+| FArr (elems : list bool) (seen : nat)
+              (* inside ReadArray's loop: is-Integer of the elements so far,
+                 newest first, and integersSeen *)
 | FKey        (* inside ReadDict's loop, a key or >> comes next *)
-| FVal.       (* inside ReadDict's loop, the value of a key comes next *)
+| FVal        (* inside ReadDict's loop, the value of a key comes next *)
+| FValI       (* the value was an Integer: a key, >>, or a generation number comes next *)
+| FValII.     (* two integers: R must come next *)
 
 Definition maxd : nat := Z.to_nat maxScannerNestDepth.
 
-(* ReadObject at the top with [st] = the containers that are open; every step
-   consumes one token.  Returns the unread tokens and the greatest stack
-   height seen. *)
-Fixpoint run (fuel : nat) (st : list frame) (toks : list tok) (hmax : nat) : res (list tok * nat) :=
+(* a value has been read in the context [st]; None: the top-level object is complete *)
+Definition complete (isint : bool) (st : list frame) : option (list frame) :=
+  match st with
+  | [] => None
+  | FArr elems seen :: s2 => Some (FArr (isint :: elems) (if isint then S seen else 0) :: s2)
+  | FVal :: s2 => Some ((if isint then FValI else FKey) :: s2)
+  | _ => Some st
+  end.
+
+(* one token.  [fixed] = true: the code as it is (`integersSeen = 0` after a
+   reference has been assembled); false: the variant `integersSeen -= 2` *)
+Definition step (fixed : bool) (st : list frame) (t : tok) : res (option (list frame)) :=
+  match st, t with
+  | FKey :: s2, TN => Ok (Some (FVal :: s2))                 (* a key *)
+  | FKey :: s2, TDC => Ok (complete false s2)                (* SkipString(">>") *)
+  | FKey :: _, _ => Err Malformed
+  | FValI :: s2, TN => Ok (Some (FVal :: s2))                (* buf[0] == '/': the next key *)
+  | FValI :: s2, TDC => Ok (complete false s2)               (* buf[0] == '>' *)
+  | FValI :: s2, TI => Ok (Some (FValII :: s2))              (* ReadInteger *)
+  | FValI :: _, _ => Err Malformed
+  | FValII :: s2, TR => Ok (Some (FKey :: s2))
+  | FValII :: _, _ => Err Malformed                          (* "expected /Name but found Integer" *)
+  | FArr _ _ :: s2, TAC => Ok (complete false s2)
+  | FArr elems seen :: s2, TR =>
+    if 2 <=? seen then
+      match elems with
+      | true :: true :: e2 =>
+        Ok (Some (FArr (false :: e2) (if fixed then 0 else seen - 2) :: s2))
+      | _ => Err Panic                                       (* array[k-2].(Integer), array[k-1].(Integer) *)
+      end
+    else Err Malformed                                       (* ReadObject: unexpected character 'R' *)
+  | _, TI => Ok (complete true st)
+  | _, TA => Ok (complete false st)
+  | _, TN => Ok (complete false st)
+  | _, TAO => if maxd <=? length st then Err Malformed else Ok (Some (FArr [] 0 :: st))
+  | _, TDO => if maxd <=? length st then Err Malformed else Ok (Some (FKey :: st))
+  | _, _ => Err Malformed                                    (* unexpected character *)
+  end.
+
+(* ReadObject with [st] = the containers that are open; every step consumes
+   one token.  Returns the unread tokens and the greatest stack height seen. *)
+Fixpoint run (fixed : bool) (fuel : nat) (st : list frame) (toks : list tok) (hmax : nat)
+  : res (list tok * nat) :=
   match fuel with
   | O => Err OutOfFuel
   | S f =>
     let hmax := Nat.max hmax (length st) in
-    (* a value has been completed with [st'] still open *)
-    let continue (st' : list frame) (rest : list tok) : res (list tok * nat) :=
-        match st' with
-        | [] => Ok (rest, hmax)
-        | FVal :: s2 => run f (FKey :: s2) rest hmax
-        | _ => run f st' rest hmax
-        end in
-    (* `if s.nestDepth >= maxScannerNestDepth` in ReadArray / ReadDict *)
-    let open (fr : frame) (rest : list tok) : res (list tok * nat) :=
-        if maxd <=? length st then Err Malformed else run f (fr :: st) rest hmax in
     match toks with
     | [] => Err Malformed                       (* unexpected EOF *)
     | t :: rest =>
-      match st with
-      | FKey :: st' =>
-        match t with
-        | TN => run f (FVal :: st') rest hmax   (* a key *)
-        | TDC => continue st' rest              (* SkipString(">>") *)
-        | _ => Err Malformed
-        end
-      | _ =>
-        (* a value is expected; inside an array ] ends the loop instead *)
-        match t, st with
-        | TAC, FArr :: st' => continue st' rest
-        | TA, _ | TN, _ => continue st rest
-        | TAO, _ => open FArr rest
-        | TDO, _ => open FKey rest
-        | _, _ => Err Malformed                 (* unexpected character *)
-        end
+      match step fixed st t with
+      | Err c => Err c
+      | Ok None => Ok (rest, hmax)
+      | Ok (Some st') => run fixed f st' rest hmax
       end
     end
   end.
 
-Definition read_object (toks : list tok) : res (list tok * nat) :=
-  run (S (length toks)) [] toks 0.
+Definition read_object_gen (fixed : bool) (toks : list tok) : res (list tok * nat) :=
+  run fixed (S (length toks)) [] toks 0.
+
+Definition read_object := read_object_gen true.
+
+(* ReadIndirectObject's tail: the value, then endobj; an Integer value may be
+   followed by `g R` *)
+Definition read_indirect (fixed : bool) (toks : list tok) : res bool :=
+  match read_object_gen fixed toks with
+  | Err c => Err c
+  | Ok (rest, _) =>
+    match toks, rest with
+    | _, [] => Ok true
+    | TI :: _, [TI; TR] => Ok true
+    | _, _ => Ok false              (* endobj expected: Malformed *)
+    end
+  end.
